@@ -1,0 +1,23 @@
+//! Observation hooks for the external runtime-monitoring harness.
+//!
+//! Compiled only with the cargo feature `verif` (off by default). Nothing in
+//! here changes what ord computes: `point` reports that a named program point
+//! was reached to a callback installed by the harness, which may record it,
+//! delay, abort the process (crash injection) or panic (step fuse).
+
+use std::sync::{Arc, RwLock};
+
+pub type Hook = Arc<dyn Fn(&'static str, u64, u64) + Send + Sync>;
+
+static HOOK: RwLock<Option<Hook>> = RwLock::new(None);
+
+pub fn set_hook(hook: Option<Hook>) {
+  *HOOK.write().unwrap_or_else(|e| e.into_inner()) = hook;
+}
+
+pub fn point(name: &'static str, a: u64, b: u64) {
+  let hook = HOOK.read().unwrap_or_else(|e| e.into_inner()).clone();
+  if let Some(hook) = hook {
+    hook(name, a, b);
+  }
+}
